@@ -375,7 +375,8 @@ def word_name_lists():
     out = []
     for name in ("Comet", "COMPASS", "Commodore 64", "com", "COM1x", "/dev/null", "/dev/ttyACM0b",
                  "ttyACM7", "usbmodem", "EiBotBoard", "EiBot", "SER", "SER=7", "SNR", "LOCATION",
-                 "USB", "VID", "04D8"):
+                 "USB", "VID", "04D8", "shelf location=2", "at Location=7", "a ser=b", "x snr=y",
+                 "VID:PID=04D8:FD92", "lab (COM3)", "a,b"):
         for style in ("descr", "ser", "snr", "ser_end"):
             out.append((style, name))
     return out
